@@ -109,6 +109,8 @@ def _rx(e, env):
         b = _rx(e.value, env)
         if not (isinstance(b, list) and isinstance(e.slice, ast.Constant) and e.slice.value in (0, 1)): raise Refuse('subscript ' + ast.unparse(e))
         return b[e.slice.value]
+    if isinstance(e, ast.Constant) and isinstance(e.value, int) and not isinstance(e.value, bool) and env.get('__int__'):
+        return f'({e.value} : Int)'
     if isinstance(e, ast.Tuple):
         if len(e.elts) != 2: raise Refuse('only pairs')
         return [_rx(x, env) for x in e.elts]
@@ -226,6 +228,80 @@ def generate_meta(repo):
         v = _rx(_assign(fd, ln), {src: [f'{src}_0', f'{src}_1'], 'oversample': 'oversample'})
         out.append(f'/-- translated from `propagate.py:propagate_dft`: `{ln} = {ast.unparse(_assign(fd, ln))}` -/\n'
                    f'def {nm} ({src}_0 {src}_1 oversample : Int) : Int × Int :=\n  {_pair(v)}\n')
+    # ---- defaults of `shape` / `prop_shape` (None -> another pair, else np.broadcast_to(., (2,))) and the mask branch of out_extent
+    out.append('/-- a `shape=` / `prop_shape=` argument as the caller writes it: `None`, one int, or a pair -/\n'
+               'inductive ShapeArg where\n  | none\n  | scalar (n : Int)\n  | pair (a b : Int)\n\n'
+               '/-- `x is None` -/\ndef ShapeArg.isNone : ShapeArg → Bool\n  | .none => true\n  | _ => false\n\n'
+               '/-- NumPy contract of `np.broadcast_to(x, (2,))` for an int or a pair (never evaluated on `None`) -/\n'
+               'def ShapeArg.bcast2 : ShapeArg → Int × Int\n  | .none => (0, 0)\n  | .scalar n => (n, n)\n  | .pair a b => (a, b)\n')
+    for nm, var, denv, sig in (('dftShapeDefault', 'shape', {'wavefront.shape': ['wavefront_shape_0', 'wavefront_shape_1']}, 'wavefront_shape_0 wavefront_shape_1'),
+                               ('dftPropShapeDefault', 'prop_shape', {'shape': ['shape_0', 'shape_1']}, 'shape_0 shape_1')):
+        v = _assign(fd, var)
+        if not isinstance(v, ast.IfExp): raise Refuse(f'propagate_dft: {var} default is no longer `a if {var} is None else b`')
+        t = v.test
+        if not (isinstance(t, ast.Compare) and len(t.ops) == 1 and isinstance(t.ops[0], (ast.Is, ast.IsNot)) and ast.unparse(t.left) == var
+                and isinstance(t.comparators[0], ast.Constant) and t.comparators[0].value is None): raise Refuse(f'propagate_dft: {var} default test changed: ' + ast.unparse(t))
+        dflt, given = (v.body, v.orelse) if isinstance(t.ops[0], ast.Is) else (v.orelse, v.body)
+        if isinstance(dflt, ast.Call) and ast.unparse(dflt.func) == 'np.asarray' and len(dflt.args) == 1 and not dflt.keywords: dflt = dflt.args[0]
+        if not (isinstance(given, ast.Call) and ast.unparse(given.func) == 'np.broadcast_to' and len(given.args) == 2 and ast.unparse(given.args[0]) == var
+                and ast.unparse(given.args[1]) == '(2,)'): raise Refuse(f'propagate_dft: explicit {var} is no longer np.broadcast_to({var}, (2,)): ' + ast.unparse(given))
+        out.append(f'/-- translated from `propagate.py:propagate_dft` (line {v.lineno}): `{var} = {ast.unparse(v)}` -/\n'
+                   f'def {nm} ({sig} : Int) ({var} : ShapeArg) : Int × Int :=\n  if {var}.isNone then {_pair(_rx(dflt, denv))} else {var}.bcast2\n')
+    branches = [n for n in fd.body if isinstance(n, ast.If) and ast.unparse(n.test) in ('mask is not None', 'mask is None')]
+    if len(branches) != 1: raise Refuse('propagate_dft: the `if mask is not None` branch was not found')
+    br = branches[0]
+    with_mask, no_mask = (br.body, br.orelse) if ast.unparse(br.test) == 'mask is not None' else (br.orelse, br.body)
+    srcs = [ast.unparse(x) for x in with_mask]
+    if len(with_mask) != 5 or srcs[0] != 'mask = np.asarray(mask)' or not isinstance(with_mask[1], ast.If) or with_mask[1].orelse \
+            or len(with_mask[1].body) != 1 or not isinstance(with_mask[1].body[0], ast.Raise) or not ast.unparse(with_mask[1].body[0]).startswith('raise ValueError('):
+        raise Refuse('propagate_dft: mask branch changed: ' + ' | '.join(x[:40] for x in srcs))
+    g = with_mask[1].test
+    if not (isinstance(g, ast.Call) and ast.unparse(g.func) in ('np.all', 'np.any') and len(g.args) == 1 and isinstance(g.args[0], ast.Compare)
+            and len(g.args[0].ops) == 1 and isinstance(g.args[0].ops[0], (ast.NotEq, ast.Eq))): raise Refuse('propagate_dft: mask shape guard changed: ' + ast.unparse(g))
+    genv = {'mask.shape': ['mask_shape_0', 'mask_shape_1'], 'shape_out': ['shape_out_0', 'shape_out_1'], 'shape': ['shape_0', 'shape_1']}
+    ga, gb = _rx(g.args[0].left, genv), _rx(g.args[0].comparators[0], genv)
+    if not (isinstance(ga, list) and isinstance(gb, list)): raise Refuse('propagate_dft: mask shape guard does not compare two pairs')
+    cmp_ = '!=' if isinstance(g.args[0].ops[0], ast.NotEq) else '=='
+    join = '&&' if ast.unparse(g.func) == 'np.all' else '||'
+    out.append(f'/-- translated from `propagate.py:propagate_dft` (line {g.lineno}): the guard `{ast.unparse(g)}` that raises ValueError -/\n'
+               f'def dftMaskMismatch (mask_shape_0 mask_shape_1 shape_out_0 shape_out_1 : Int) : Bool :=\n'
+               f'  ({ga[0]} {cmp_} {gb[0]}) {join} ({ga[1]} {cmp_} {gb[1]})\n')
+    thr = []
+    for k, fname in ((2, '_mask_shape'), (3, '_mask_shift')):
+        a = with_mask[k]
+        if not (isinstance(a, ast.Assign) and ast.unparse(a.targets[0]) == fname[1:] and isinstance(a.value, ast.Call) and ast.unparse(a.value.func) == fname):
+            raise Refuse(f'propagate_dft: {fname[1:]} = {fname}(...) changed: ' + srcs[k][:60])
+        args = _call_args(a.value, fns[fname])
+        if ast.unparse(args[0]) != 'mask' or not (isinstance(args[1], ast.Constant) and isinstance(args[1].value, int)): raise Refuse(f'propagate_dft: arguments of {fname} changed: ' + srcs[k][:60])
+        thr.append(args[1].value)
+    if thr[0] != thr[1]: raise Refuse('propagate_dft: _mask_shape and _mask_shift are called with different thresholds')
+    out.append(f'/-- translated from `propagate.py:propagate_dft` (line {with_mask[2].lineno}): the `threshold=` of `_mask_shape(mask, ..)`/`_mask_shift(mask, ..)` -/\n'
+               f'def dftMaskThreshold : Int := {thr[0]}\n')
+    ext = ast.parse(open(os.path.join(repo, 'lentil/extent.py')).read())
+    aext = [n for n in ast.walk(ext) if isinstance(n, ast.FunctionDef) and n.name == 'array_extent']
+    if len(aext) != 1: raise Refuse('extent.py: array_extent not found')
+    def ext_args(stmt, env, what):
+        if not (isinstance(stmt, ast.Assign) and ast.unparse(stmt.targets[0]) == 'out_extent' and isinstance(stmt.value, ast.Call)
+                and ast.unparse(stmt.value.func) == 'lentil.extent.array_extent'): raise Refuse(f'propagate_dft: out_extent ({what}) is no longer an array_extent call')
+        params = [q.arg for q in aext[0].args.args]
+        if params[:2] != ['shape', 'shift']: raise Refuse('extent.py: array_extent parameters changed')
+        got = dict(zip(params, stmt.value.args))
+        for k in stmt.value.keywords:
+            if k.arg in got or k.arg not in params: raise Refuse(f'propagate_dft: out_extent ({what}) call arguments')
+            got[k.arg] = k.value
+        if set(got) != {'shape', 'shift'}: raise Refuse(f'propagate_dft: out_extent ({what}) is no longer array_extent(shape, shift) without a parent shape')
+        a = [_rx(got['shape'], env), _rx(got['shift'], env)]
+        if not all(isinstance(x, list) for x in a): raise Refuse(f'propagate_dft: out_extent ({what}) arguments are not pairs')
+        return f'(({a[0][0]}, {a[0][1]}), ({a[1][0]}, {a[1][1]}))'
+    menv = {'mask_shape': ['mask_shape_0', 'mask_shape_1'], 'mask_shift': ['mask_shift_0', 'mask_shift_1'], 'shape_out': ['shape_out_0', 'shape_out_1'],
+            'shape': ['shape_0', 'shape_1'], '__int__': True}
+    out.append(f'/-- translated from `propagate.py:propagate_dft` (line {with_mask[4].lineno}): (shape, shift) handed to `array_extent` for `out_extent` when a mask is given -/\n'
+               f'def dftOutExtentArgsMask (mask_shape_0 mask_shape_1 mask_shift_0 mask_shift_1 shape_out_0 shape_out_1 : Int) : (Int × Int) × (Int × Int) :=\n'
+               f'  {ext_args(with_mask[4], menv, "mask")}\n')
+    if len(no_mask) != 1: raise Refuse('propagate_dft: the no-mask branch changed')
+    out.append(f'/-- translated from `propagate.py:propagate_dft` (line {no_mask[0].lineno}): (shape, shift) handed to `array_extent` for `out_extent` without a mask -/\n'
+               f'def dftOutExtentArgsNoMask (shape_out_0 shape_out_1 : Int) : (Int × Int) × (Int × Int) :=\n'
+               f'  {ext_args(no_mask[0], menv, "no mask")}\n')
     # ---- _fft_shape: alpha call (positional!), reported wavelength per axis
     ff = fns['_fft_shape']
     if [a.arg for a in ff.args.args] != ['dx', 'du', 'z', 'wavelength', 'oversample']: raise Refuse('_fft_shape: parameters changed')
